@@ -17,6 +17,8 @@ import sys
 import time
 
 V = os.path.dirname(os.path.dirname(os.path.abspath(__file__)))
+MUTBASE = os.environ.get("MUTBASE", "/tmp/mut")
+IDPFX = os.environ.get("IDPFX", "")
 ENV = dict(os.environ, GOFLAGS="-mod=mod", GOPROXY="off", GOSUMDB="off", GOTOOLCHAIN="local")
 
 
@@ -31,11 +33,11 @@ def netns(cmd):
 
 
 def confirm(prop, mut):
-    base = "/tmp/mut/%s" % prop
+    base = "%s/%s" % (MUTBASE, prop)
     wt = base + "/wt"
     out = "%s/out/%s" % (base, mut)
     meta = json.load(open(out + "/meta.json"))
-    res = dict(id="%s-%s" % (prop, mut), property=prop)
+    res = dict(id="%s-%s%s" % (prop, IDPFX, mut), property=prop)
     sh("git checkout -- . && git clean -fdq", cwd=wt)
     rc, o = sh("git apply --check %s/patch.diff" % out, cwd=wt)
     res["applies"] = rc == 0
@@ -84,8 +86,8 @@ def confirm(prop, mut):
 
 
 def keep(prop, mut, res=None):
-    out = "/tmp/mut/%s/out/%s" % (prop, mut)
-    sid = "%s-%s" % (prop, mut)
+    out = "%s/%s/out/%s" % (MUTBASE, prop, mut)
+    sid = "%s-%s%s" % (prop, IDPFX, mut)
     dst = os.path.join(V, "seeded", sid)
     os.makedirs(dst, exist_ok=True)
     shutil.copy(out + "/patch.diff", dst + "/patch.diff")
@@ -135,7 +137,7 @@ if __name__ == "__main__":
     cmd = sys.argv[1]
     if cmd == "confirm":
         r = confirm(sys.argv[2], sys.argv[3])
-        json.dump(r, open("/tmp/mut/%s/out/%s/confirm.json" % (sys.argv[2], sys.argv[3]), "w"), indent=1)
+        json.dump(r, open("%s/%s/out/%s/confirm.json" % (MUTBASE, sys.argv[2], sys.argv[3]), "w"), indent=1)
         print(r["id"], "confirmed" if r.get("confirmed") else "NOT CONFIRMED", {k: r.get(k) for k in ("applies", "builds", "suite_passes", "demo_fails_with", "demo_passes_without")})
         if r.get("confirmed"):
             keep(sys.argv[2], sys.argv[3], r)
